@@ -208,7 +208,7 @@ def vals_call(f, table):
         return "support::small_range(%d)" % n
     if k == "bool":
         return "support::small_range(2)"
-    return "support::vals(%d, o.seed)" % f["width"]
+    return "support::vals(%d, o)" % f["width"]
 
 
 def ident_noraw(name):
@@ -261,8 +261,8 @@ def render_run_fn(d, table, surface, with_const=True):
     # layout and Copy (C06): compiler-checked
     L.append("    const _: () = assert!(core::mem::size_of::<%s>() == core::mem::size_of::<%s>() && core::mem::align_of::<%s>() == core::mem::align_of::<%s>());" % (name, native_of(N), name, native_of(N)))
     L.append("    fn _is_copy<T: Copy>() {} _is_copy::<%s>();" % name)
-    L.append("    let raws = support::raws(%d, o.seed);" % N)
-    L.append("    let wraws = support::wraws(%d, o.seed);" % N)
+    L.append("    let raws = support::raws(%d, o);" % N)
+    L.append("    let wraws = support::wraws(%d, o);" % N)
     # raw round trip and constants
     L.append("    support::op_rt(o, \"%s\", &raws, &mk, &rawof);" % name)
     L.append("    o.line(&format!(\"op %s zero = {}\", support::res(support::catch(|| rawof(&%s::ZERO)))));" % (name, name))
@@ -285,12 +285,13 @@ def render_run_fn(d, table, surface, with_const=True):
                 L.append("    support::op_get(o, \"%s\", \"%s\", Some(%d), &raws, &mk, &|s: &%s, i: usize| s.%s(i));" % (name, fname, K, name, fname))
         if has_with and has_set:
             conv = conv_expr(f, table)
+            L.append("    let vals_%d = %s;" % (fi, vals_call(f, table)))
             if K is None:
-                L.append("    support::op_write(o, \"%s\", \"%s\", None, &wraws, &%s, &mk, &rawof, &stor, &|v: u128| %s, &|s: &%s, _i: usize, v| s.with_%s(v), &|s: &mut %s, _i: usize, v| s.set_%s(v));" % (
-                    name, fname, vals_call(f, table), conv, name, nr, name, nr))
+                L.append("    support::op_write(o, \"%s\", \"%s\", None, &wraws, &vals_%d, &mk, &rawof, &stor, &|v: u128| %s, &|s: &%s, _i: usize, v| s.with_%s(v), &|s: &mut %s, _i: usize, v| s.set_%s(v));" % (
+                    name, fname, fi, conv, name, nr, name, nr))
             else:
-                L.append("    support::op_write(o, \"%s\", \"%s\", Some(%d), &wraws, &%s, &mk, &rawof, &stor, &|v: u128| %s, &|s: &%s, i: usize, v| s.with_%s(i, v), &|s: &mut %s, i: usize, v| s.set_%s(i, v));" % (
-                    name, fname, K, vals_call(f, table), conv, name, nr, name, nr))
+                L.append("    support::op_write(o, \"%s\", \"%s\", Some(%d), &wraws, &vals_%d, &mk, &rawof, &stor, &|v: u128| %s, &|s: &%s, i: usize, v| s.with_%s(i, v), &|s: &mut %s, i: usize, v| s.set_%s(i, v));" % (
+                    name, fname, K, fi, conv, name, nr, name, nr))
             fields_for_hist.append((fi, f))
     # histories
     if fields_for_hist:
